@@ -418,9 +418,12 @@ def judge_fake(ctx, w, exps, lm, label):
     if mech:
         if any_lookalike:
             mech = 'channel-header-lookalike-noise'
-        elif any_glued and pv['verdict'] is True:
-            # the header is glued to the partial line and no longer parses:
-            # the parent reports 'Could not communicate' for a complete run
+        elif any_glued and (pv['verdict'] is True or glued_skip_lost(
+                pv, exps, ran, want_f, want_e, skipped)):
+            # the first line of the report is glued to the partial line and
+            # no longer parses: either the header ('Could not communicate'
+            # for a complete run) or the 'skipped N' line in front of it
+            # (that layer's skipped count is lost, everything else right)
             mech = 'channel-unterminated-noise-glued-to-header'
         elif any_cr:
             mech = 'channel-name-with-carriage-return'
@@ -431,6 +434,15 @@ def judge_fake(ctx, w, exps, lm, label):
               want={'ran': ran, 'nfails': len(want_f), 'nerrs': len(want_e),
                     'skipped': skipped, 'fails': sorted(want_f)[:4],
                     'errs': sorted(want_e)[:4]})
+
+
+def glued_skip_lost(pv, exps, ran, want_f, want_e, skipped):
+    if pv['total'] is None:
+        return False
+    t, f, e, s = pv['total']
+    lost = sum(x['nskip'] for x in exps.values() if x.get('glued'))
+    return (lost > 0 and (t, f, e) == (ran, len(want_f), len(want_e)) and
+            skipped - lost <= s < skipped)
 
 
 def fake_world(prefix, k):
